@@ -48,8 +48,8 @@ CHECKS = {
  'C07': dict(cat='proof', tech='Rocq proof on an effect-trace model of sync (crash states = prefixes incl. torn writes; every crash state keeps a loadable content whose synced stripes have valid parity, under "single-thread or no autosave" - refuted with a witness for threaded autosave; resume converges; adds-only recoverability per intact level) + fault enumeration on the real binary: kill before/after/short at every numbered state-changing syscall of sync and fix, signals at every parity write',
              text='The crash-state invariant is proved on the trace model (content save atomic by C09, parity writes per level in order) and refuted for the threaded autosave (open finding); every kill point of real runs is then judged by independent oracles (data snapshot, loadable content, independent parity check, resumed sync, recovery from lost devices). Kernel/power-loss semantics are not modelled.',
              ref='4/C07', note='As TB; additionally: process-death semantics only (completed syscalls persist; no power-loss or write-reordering model); a torn block-sized pwrite with a single parity level is measured, not judged (Q-C07).'),
- 'C08': dict(cat='proof', tech='Rocq proof (read faults in sync and scrub leave the stripe unsynced or bad with a failing status; error limit; exit status failing for every write fault and writer schedule; full write-fault safety refuted by witnesses = open finding) + fault enumeration: EIO/ENOSPC at every pread/pwrite index with cache depths 1..128, compared with the extracted writer-accounting model',
-             text='Read-fault safety and the exit-status half of write-fault safety are proved for all runs of the sync/scrub models; the stripe-state half is refuted (F-C08-parity-write-error-recorded-synced). Every injected fault of real runs is judged by exit status, decoded content, status, and repair by fix -e / sync verified with the independent parity checker.',
+ 'C08': dict(cat='proof', tech='Rocq proof (read faults in sync and scrub leave the stripe unsynced or bad with a failing status; error limit; exit status failing for every write fault and writer schedule; every failed parity write leaves its stripe marked bad with a failing status, for every writer schedule, since the repair 0ecd44a) + fault enumeration: EIO/ENOSPC at every pread/pwrite index with cache depths 1..128, compared with the extracted writer-accounting model',
+             text='Read-fault safety and write-fault safety (failing status, stripe marked bad, frame) are proved for all runs, fault sequences and writer schedules of the sync/scrub models; the stripe-state half was false of the pinned tree and is repaired by /repo 0ecd44a (regression Examples kept). Every injected fault of real runs is judged by exit status, decoded content, status, and repair by fix -e / sync verified with the independent parity checker.',
              ref='4/C08'),
  'C01': dict(cat='proof', tech='Rocq proof per stripe step of the check/fix model (repair enumerates parity combinations, rejects damaged levels by hash, restores the recorded vector when damaged blocks <= intact levels; a following check is quiet) + command-level correspondence and an independent byte/mtime snapshot over every subset of <= np destroyed devices on small geometries',
              text='fix_restores is proved for one stripe position of the transcribed repair/fix step under collision-freedom on the finite block set; the whole run (files spanning stripes, links, dirs, exit status) is tied to the binary by correspondence and judged by an independent snapshot after fix and check on exhaustive device subsets.',
@@ -63,7 +63,7 @@ CHECKS = {
  'C03': dict(cat='proof', tech='Rocq proof (MDS of the 6x251 Cauchy and 3x251 power matrices by polynomial root counting in MathComp; Gauss-Jordan without pivoting never meets a zero pivot; combination enumerator and sorting networks; the six SSSE3/AVX2 decoders of x86.c TRANSLATED on every run and proved equal to the recovery expression by a verified reflective checker) + unit correspondence of raid_rec/raid_data/raid_check/raid_scan in all decoder families against the known original stripe',
              text='All 3.8e11 minors are settled by theorems, not enumeration; the decoder/validator models are executed against the real raid/*.c (int8, ssse3, avx2, dispatcher) on exhaustive small geometries and boundary-aimed large ones, the oracle being the original stripe.',
              ref='4/C03'),
- 'C02': dict(cat='proof', tech='Rocq proof (tables regenerated from tables.c = closed forms; GF(2^8) field laws; 32/64-bit SWAR lemmas; portable generator models = matrix product for all nd<=251; the 20 SIMD generators of x86.c/x86z.c TRANSLATED on every run into a deep-embedded program and proved by a verified reflective checker) + unit correspondence of all 31 exported variants and of the extracted SIMD interpreter against the silicon',
+ 'C02': dict(cat='proof', tech='Rocq proof (tables regenerated from tables.c = closed forms; GF(2^8) field laws; 32/64-bit SWAR lemmas; portable generator models = matrix product for all nd<=251; the 10 portable generators of int.c/intz.c and the gf.h helpers TRANSLATED on every run and proved by a verified abstract interpreter; the 20 SIMD generators of x86.c/x86z.c TRANSLATED on every run into a deep-embedded program and proved by a verified reflective checker) + unit correspondence of all 31 exported variants and of the extracted SIMD interpreter against the silicon',
              text='Theorems over the regenerated tables and the generator models for all geometries and contents; every exported raid_gen* variant (incl. SIMD) is executed against the extracted model and an independent GF reference on a complete per-disk byte basis.',
              ref='4/C02'),
 }
